@@ -59,6 +59,11 @@ class C09(Check):
         for n in (2, 3):
             for cached in (True, False):
                 out.append({"part": "image_iterator", "n": n, "steps": k + 2, "cached": cached})
+        # histories that start after a complete first pass (cache filled): the free steps then suffice for size
+        # histories A -> B -> A over one cached frame
+        out.append({"part": "image_iterator", "n": 2, "steps": k + 2, "cached": True, "warm": 2})
+        if tier != "quick":
+            out.append({"part": "image_iterator", "n": 3, "steps": k + 2, "cached": True, "warm": 3})
         return out
 
     def setup(self, shape, concrete):
@@ -223,8 +228,9 @@ class C09(Check):
         eng.claim("ImageIterator honours the cached argument", bool(it._cached) == shape["cached"])
         expected_pos = 0
         passes = 2
-        for i in range(shape["steps"]):
-            op = eng.choice(f"op{i}", 3)
+        warm = shape.get("warm", 0)
+        for i in range(warm + shape["steps"]):
+            op = 0 if i < warm else eng.choice(f"op{i}", 3)
             eng.step(("next", "resize", "seek")[op])
             if op == 0:
                 try:
